@@ -63,9 +63,28 @@ def rule_variant(rule, name):
 
 
 # ------------------------------------------------------------------------------------------------ expansion
+def expander_dir():
+    """tools/expand builds against /repo/core; for a private tree ($VERIF_REPO) a sibling crate is generated under build/."""
+    if os.path.realpath(C.REPO) == "/repo":
+        return os.path.join(VERIF, "tools/expand")
+    import hashlib, shutil
+    d = os.path.join(C.BUILD, "expand_" + hashlib.sha1(C.REPO.encode()).hexdigest()[:8])
+    os.makedirs(os.path.join(d, "src"), exist_ok=True)
+    src = os.path.join(VERIF, "tools/expand")
+    shutil.copy(os.path.join(src, "src/main.rs"), os.path.join(d, "src/main.rs"))
+    toml = open(os.path.join(src, "Cargo.toml")).read().replace('path = "/repo/core"', f'path = "{C.REPO}/core"')
+    if not os.path.exists(os.path.join(d, "Cargo.toml")) or open(os.path.join(d, "Cargo.toml")).read() != toml:
+        open(os.path.join(d, "Cargo.toml"), "w").write(toml)
+    os.makedirs(os.path.join(d, ".cargo"), exist_ok=True)
+    open(os.path.join(d, ".cargo/config.toml"), "w").write("[net]\noffline = true\n")
+    return d
+
+
 def ensure_expander():
+    global EXPAND
     env = dict(os.environ, CARGO_NET_OFFLINE="true")
-    d = os.path.join(VERIF, "tools/expand")
+    d = expander_dir()
+    EXPAND = os.path.join(d, "target/release/vexpand")
     lock = os.path.join(d, "Cargo.lock")
     if not os.path.exists(lock) and os.path.exists(os.path.join(C.REPO, "Cargo.lock")):
         import shutil
@@ -80,10 +99,23 @@ def prepass(text, log):
     n = len(re.findall(r"::\s*(darling|syn)\s*::", text))
     text = re.sub(r"(?<![\w>])::\s*(darling|syn)\s*::", r"crate::\1::", text)
     log.append(f"R14:leading `::darling`/`::syn` -> `crate::darling`/`crate::syn` x{n}")
-    pat = re.compile(r"crate::darling::export::identity::<\s*fn\(&crate::syn::Meta\)\s*->\s*crate::darling::Result<_>,?\s*>\(\s*([\w:]+?)\s*\)\s*\(", re.S)
+    pat = re.compile(r"crate::darling::export::identity::<\s*fn\(&crate::syn::Meta\)\s*->\s*crate::darling::Result<_>,?\s*>\(\s*([\w:]+?)\s*,?\s*\)\s*\(", re.S)
     text, k = pat.subn(r"\1(", text)
     if k:
         log.append(f"R7:identity::<fn(&Meta)->Result<_>>(f)(x) -> f(x) x{k}")
+    text, k = re.subn(r"(crate::darling::export::NestedMeta::parse_meta_list\((?:[^()]|\([^()]*\))*\))\?",
+                      r"(match \1 { Ok(__v) => __v, Err(__e) => return Err(crate::darling::Error::from_syn(__e)) })", text)
+    if k:
+        log.append(f"R13b:`?` on a syn::Result made explicit (match + Error::from) x{k}")
+    text, k = re.subn(r"let __items = &__items;", "let __items = __items.as_slice();", text)
+    if k:
+        log.append(f"R17:&Vec -> as_slice() x{k}")
+    text, k = re.subn(r"(crate::darling::util::path_to_string\(__nested\.path\(\)\))\.as_ref\(\)", r"\1.as_str()", text)
+    if k:
+        log.append(f"R5b:String::as_ref() -> as_str() in match scrutinee x{k}")
+    text, k = re.subn(r"crate::darling::export::identity::<\s*fn\(\)\s*->\s*crate::darling::Result<Self>\s*>\((\|\|[^;]*?)\)\(\)", r"(\1)()", text, flags=re.S)
+    if k:
+        log.append(f"R7b:identity::<fn()->Result<Self>>(closure)() -> (closure)() x{k}")
     text, k = re.subn(r'&\s*format!\(\s*"\{\}\[\{\}\]"\s*,\s*("[^"]*")\s*,\s*(\w+)\s*\)', r"&crate::fmt_idx(\1, \2)", text)
     if k:
         log.append(f"R11:format!(\"{{}}[{{}}]\", name, idx) -> fmt_idx(name, idx) x{k}")
@@ -140,6 +172,8 @@ def lit(s):
 
 def declaration(d):
     """The receiver declaration handed to the real derive."""
+    if d["kind"] == "enum":
+        return enum_declaration(d)
     n = d["name"]
     cattrs = []
     if d["rename_all"]:
@@ -201,7 +235,8 @@ def default_kind(d, f):
     return None
 
 
-def struct_template(d, gen_id, mode="full"):
+def struct_template(d, gen_id, mode="full", ctx=None):
+    """ctx (enum struct variant): {loop, match, closure, occ_for, occ_alts, targs: [actual type param names], located: name}"""
     n = d["name"]
     F = d["fields"]
     N = len(F)
@@ -220,12 +255,8 @@ def struct_template(d, gen_id, mode="full"):
 
     # bounds: conversion for every non-skipped field, Default where the declaration asks the trait for a value
     def bounds(i):
-        b = []
-        if not F[i]["skip"]:
-            b.append("FromMeta")
-        if default_kind(d, F[i]) == "trait":
-            b.append("darling::export::Default")
-        return b
+        # over-approximate: which bounds the emitted impl really needs is C19/C20's question, not this unit's
+        return ["FromMeta", "darling::export::Default"]
     impl_gen = ", ".join(f"T{i}" + (": " + " + ".join(bounds(i)) if bounds(i) else "") for i in range(N))
     o = []
     w = o.append
@@ -319,7 +350,7 @@ def struct_template(d, gen_id, mode="full"):
     w("}")
 
     # finish: flatten hand-off, presence checks in declaration order, verdict (C01 defaults, C02 missing fields)
-    w(f"pub open spec fn fin0_{n}<{gen_bounds}>(st0: St{n}<{tps}>) -> Result<{n}<{tps}>> {{")
+    w(f"pub open spec fn chk_{n}<{gen_bounds}>(st0: St{n}<{tps}>) -> St{n}<{tps}> {{")
     cur = "st0"
     k = 0
     if flat is not None:
@@ -338,7 +369,10 @@ def struct_template(d, gen_id, mode="full"):
         w(f"    let st{k} = if !{cur}.s{i}.0 {{ match T{i}::none_spec() {{ Some(v) => St{n} {{ s{i}: ({cur}.s{i}.0, Some(v)), ..{cur} }}, "
           f"None => St{n} {{ errs: {cur}.errs.push(e_missing({nm}@)), ..{cur} }} }} }} else {{ {cur} }};")
         cur = f"st{k}"
-    w(f"    if {cur}.errs.len() > 0 {{ Err(e_multiple({cur}.errs)) }} else {{")
+    w(f"    {cur}")
+    w("}")
+    w(f"pub open spec fn val_{n}<{gen_bounds}>(st: St{n}<{tps}>) -> {n}<{tps}> {{")
+    cur = "st"
     if d["cdefault"] == "trait":
         w(f"        let dflt = dflt_{n}_spec::<{tps}>();")
     elif d["cdefault"] == "path":
@@ -359,15 +393,17 @@ def struct_template(d, gen_id, mode="full"):
             else:
                 inits.append(f"{f['ident']}: {cur}.s{i}.1->0")
     val = f"{n} {{ " + ", ".join(inits) + " }"
-    w(f"        Ok({val})")
-    w("    }")
+    w(f"        {val}")
+    w("}")
+    w(f"pub open spec fn fin0_{n}<{gen_bounds}>(st0: St{n}<{tps}>) -> Result<{n}<{tps}>> {{")
+    w(f"    let s = chk_{n}::<{tps}>(st0); if s.errs.len() > 0 {{ Err(e_multiple(s.errs)) }} else {{ Ok(val_{n}::<{tps}>(s)) }}")
     w("}")
     cp = {"map": f"Ok(map_{n}_spec(v))", "and_then": f"fix_{n}_spec(v)", None: "Ok(v)"}[d["cpost"]]
     w(f"pub open spec fn fin_{n}<{gen_bounds}>(st0: St{n}<{tps}>) -> Result<{n}<{tps}>> {{ match fin0_{n}::<{tps}>(st0) {{ Ok(v) => {cp}, Err(e) => Err(e) }} }}")
 
     # invariant linking locals to the oracle state of the consumed prefix
     eqs = []
-    safe = [f"({f['ident']}.0 && {f['ident']}.1 is None ==> __errors.errs().len() > 0)" for f in F if not f["multiple"]]
+    safe = [f"({f['ident']}.0 && {f['ident']}.1 is None ==> __errors.errs().len() > 0) && ({f['ident']}.1 is Some ==> {f['ident']}.0)" for f in F if not f["multiple"]]
     for i, f in enumerate(F):
         if mode == "err":
             # C02 view: which value a field holds is C01's business; only presence / count can influence errors
@@ -392,6 +428,52 @@ def struct_template(d, gen_id, mode="full"):
     flat_a = ", __flatten" if flat is not None else ""
     w(f"pub open spec fn inv_{n}<{gen_bounds}>(st: St{n}<{tps}>, {locs + ', ' if locs else ''}{flat_p.lstrip(', ') + ', ' if flat_p else ''}__errors: Accumulator) -> bool {{ {inv} }}")
 
+    L = ctx["loop"] if ctx else 0
+    M = ctx["match"] if ctx else 0
+    CB = ctx["closure"] if ctx else 0
+    occ_for = f" @{ctx['occ_for']}" if ctx else ""
+    occ_alts = f" @{ctx['occ_alts']}" if ctx else ""
+    D = []
+    D.append(f"    //@ replace R6n{occ_for}: for __item in __items ==> for __item in __it{L}: __items")
+    D.append(f"    //@ loop {L} spec: invariant inv_{n}::<{tps}>(run_{n}::<{tps}>(__items@.take(__it{L}.index@ as int)), {call + ', ' if call else ''}{flat_a.lstrip(', ') + ', ' if flat_a else ''}__errors),")
+    D.append(f"    //@ loop {L} head: proof {{ assert(__items@.take(__it{L}.index@ + 1).drop_last() == __items@.take(__it{L}.index@ as int)); }}")
+    D.append(f"    //@ loop {L} after: proof {{ assert(__items@.take(__items@.len() as int) == __items@); }}")
+    if addressable:
+        D.append(f"    //@ match_str {M}")
+    if flat is None and not d["allow_unknown"] and names:
+        D.append(f"    //@ replace R16{occ_alts}: unknown_field_with_alts(__other, &[$$]) ==> unknown_field_with_alts(__other, {{ let __alts: &[&str] = &[$1]; proof {{ assert(strs(__alts@) =~= {names_seq}); }} __alts }})")
+    if flat is not None:
+        D.append("    //@ replace R4v: vec![] ==> Vec::new()")
+        D.append("    //@ replace R17: from_list(&__flatten) ==> from_list(__flatten.as_slice())")
+    for i in addressable:
+        f = F[i]
+        nm = lit(eff_name(d, f))
+        if f["post"] == "map":
+            D.append(f"    //@ replace R4: .map(post_{i}) ==> .map(|__x: T{i}| -> (r: T{i}) ensures r == post_{i}_spec(__x) {{ post_{i}(__x) }})")
+        if f["post"] == "and_then":
+            D.append(f"    //@ replace R4: .and_then(chk_{i}) ==> .and_then(|__x: T{i}| -> (r: Result<T{i}>) ensures r == chk_{i}_spec(__x) {{ chk_{i}(__x) }})")
+        loc = f"idx_loc({nm}@, __len as nat)" if f["multiple"] else f"{nm}@"
+        D.append(f"    //@ closure {CB + addressable.index(i)}: |e: Error| -> (r: Error) ensures r == e_at(e_with_span(e, meta_span(*__inner)), {loc})")
+    nclos = len(addressable)
+    if flat is not None and names:
+        D.append(f"    //@ closure {CB + nclos}: |e: Error| -> (r: Error) ensures r == e_sibling_alts(e, {names_seq})")
+        D.append(f"    //@ replace R16: add_sibling_alts_for_unknown_field(&[$$]) ==> add_sibling_alts_for_unknown_field({{ let __alts: &[&str] = &[$1]; proof {{ assert(strs(__alts@) =~= {names_seq}); }} __alts }})")
+        nclos += 1
+    if ctx:
+        D.append(f"    //@ closure {CB + nclos}: |e: Error| -> (r: Error) ensures r == e_at(e, {lit(ctx['located'])}@)")
+        nclos += 1
+        ta = ctx["targs"]
+        D = [re.sub(r"\bT(\d+)\b", lambda m: ta[int(m.group(1))], x) for x in D]
+        text = "\n".join(o)
+        if N == 0:
+            text = text.replace("::<>", "").replace("<>", "")
+            D = [x.replace("::<>", "").replace("<>", "") for x in D]
+        return text, D, {"nclos": nclos, "has_alts": flat is None and not d["allow_unknown"] and bool(names), "addressable": addressable, "tps": tps}
+    if d["cpost"] == "and_then":
+        D.append(f"    //@ replace R4: .and_then(fix_{n}) ==> .and_then(|__x: {n}<{tps}>| -> (r: Result<{n}<{tps}>>) ensures r == fix_{n}_spec(__x) {{ fix_{n}(__x) }})")
+    if d["cpost"] == "map":
+        D.append(f"    //@ replace R4: .map(map_{n}) ==> .map(|__x: {n}<{tps}>| -> (r: {n}<{tps}>) ensures r == map_{n}_spec(__x) {{ map_{n}(__x) }})")
+
     # the real emitted function under contract
     w(f"impl<{impl_gen}> {n}<{tps}> {{")
     w(f"    //@fn @gen:{gen_id}.rs :: impl crate::darling::FromMeta for {n}<{tps}> :: fn from_list")
@@ -404,39 +486,8 @@ def struct_template(d, gen_id, mode="full"):
     else:
         w(f"        ensures r == fin_{n}::<{tps}>(run_{n}::<{tps}>(__items@)),")
     w("    //@body")
-    w("    //@ replace R6n: for __item in __items ==> for __item in __it: __items")
-    w(f"    //@ loop 0 spec: invariant inv_{n}::<{tps}>(run_{n}::<{tps}>(__items@.take(__it.index@ as int)), {call + ', ' if call else ''}{flat_a.lstrip(', ') + ', ' if flat_a else ''}__errors),")
-    w("    //@ loop 0 head: proof { assert(__items@.take(__it.index@ + 1).drop_last() == __items@.take(__it.index@ as int)); }")
-    w("    //@ loop 0 after: proof { assert(__items@.take(__items@.len() as int) == __items@); }")
-    if addressable:
-        w("    //@ match_str 0")
-    if flat is None and not d["allow_unknown"] and names:
-        w(f"    //@ replace R16: unknown_field_with_alts(__other, &[$$]) ==> unknown_field_with_alts(__other, {{ let __alts: &[&str] = &[$1]; proof {{ assert(strs(__alts@) =~= {names_seq}); }} __alts }})")
-    if flat is not None:
-        w("    //@ replace R4v: vec![] ==> Vec::new()")
-        w("    //@ replace R17: from_list(&__flatten) ==> from_list(__flatten.as_slice())")
-    # closures in source order
-    c = 0
-    for i in addressable:
-        f = F[i]
-        nm = lit(eff_name(d, f))
-        if f["post"] == "map":
-            w(f"    //@ replace R4: .map(post_{i}) ==> .map(|__x: T{i}| -> (r: T{i}) ensures r == post_{i}_spec(__x) {{ post_{i}(__x) }})")
-            c += 1
-        if f["post"] == "and_then":
-            w(f"    //@ replace R4: .and_then(chk_{i}) ==> .and_then(|__x: T{i}| -> (r: Result<T{i}>) ensures r == chk_{i}_spec(__x) {{ chk_{i}(__x) }})")
-            c += 1
-        loc = f"idx_loc({nm}@, __len as nat)" if f["multiple"] else f"{nm}@"
-        w(f"    //@ closure {addressable.index(i)}: |e: Error| -> (r: Error) ensures r == e_at(e_with_span(e, meta_span(*__inner)), {loc})")
-    nclos = len(addressable)
-    if flat is not None and names:
-        w(f"    //@ closure {nclos}: |e: Error| -> (r: Error) ensures r == e_sibling_alts(e, {names_seq})")
-        w(f"    //@ replace R16: add_sibling_alts_for_unknown_field(&[$$]) ==> add_sibling_alts_for_unknown_field({{ let __alts: &[&str] = &[$1]; proof {{ assert(strs(__alts@) =~= {names_seq}); }} __alts }})")
-        nclos += 1
-    if d["cpost"] == "and_then":
-        w(f"    //@ replace R4: .and_then(fix_{n}) ==> .and_then(|__x: {n}<{tps}>| -> (r: Result<{n}<{tps}>>) ensures r == fix_{n}_spec(__x) {{ fix_{n}(__x) }})")
-    if d["cpost"] == "map":
-        w(f"    //@ replace R4: .map(map_{n}) ==> .map(|__x: {n}<{tps}>| -> (r: {n}<{tps}>) ensures r == map_{n}_spec(__x) {{ map_{n}(__x) }})")
+    for x in D:
+        w(x)
     w("    //@end")
     w("}")
     text = "\n".join(o)
@@ -468,7 +519,7 @@ def make_unit(unit, d, mode="full", unit_span=False):
     hdr = HEADER.format(unit=unit)
     if unit_span:
         hdr = hdr.replace("//@include prelude/base.vrs", "//@include prelude/base_unitspan.vrs")
-    text = hdr + struct_template(d, unit, mode) + FOOTER
+    text = hdr + (enum_template(d, unit, mode) if d["kind"] == "enum" else struct_template(d, unit, mode)) + FOOTER
     return D.expand_includes(text)
 
 
@@ -476,7 +527,7 @@ def make_unit(unit, d, mode="full", unit_span=False):
 def quick_structs():
     f = field
     return [
-        struct_desc("R0", [f("first_one"), f("b", default="trait"), f("c", multiple=True, rename="cs"), f("d", skip=True)], rename_all="camelCase"),
+        struct_desc("R0", [f("first_one"), f("b", default="trait"), f("c", multiple=True, rename="my_cs"), f("d", skip=True)], rename_all="camelCase"),
         struct_desc("R1", [f("a", with_=True, post="map"), f("b", default="path", post="and_then"), f("c", flatten=True), f("d", skip=True, default="path")],
                     cdefault="trait", cpost="and_then", allow_unknown=True),
         struct_desc("R2", [f("x"), f("y")], allow_unknown=True),
@@ -486,7 +537,7 @@ def quick_structs():
         struct_desc("R6", [f("a", default="trait", post="and_then"), f("b", with_=True)], cpost="map"),
         struct_desc("R7", [f("only_flat", flatten=True)]),
         struct_desc("R8", [f("s", skip=True)]),
-        struct_desc("R9", [f("my_field", rename="other"), f("your_field")], rename_all="kebab-case"),
+        struct_desc("R9", [f("my_field", rename="other_name"), f("your_field")], rename_all="kebab-case"),
         struct_desc("R10", [f("a"), f("b"), f("c"), f("d"), f("e")], rename_all="PascalCase"),
         struct_desc("R11", [f("a", with_=True, post="and_then", multiple=True), f("b", with_=True, default="path")], cdefault="trait"),
         struct_desc("R12", [], allow_unknown=False),
@@ -609,3 +660,192 @@ def units_for(corpus, tier, seed, mode="full", unit_span=False, prefix="l3"):
         meta["prepass"] = e["log"]
         out.append((uid, make_unit(uid, d, mode, unit_span), meta))
     return out
+
+
+# ================================================================================================ enums (C09)
+def variant(ident, style="unit", rename=None, skip=False, word=False, fields=None):
+    return {"ident": ident, "style": style, "rename": rename, "skip": skip, "word": word, "fields": fields or []}
+
+
+def enum_desc(name, variants, rename_all=None, allow_unknown=False):
+    return {"kind": "enum", "name": name, "trait": "FromMeta", "variants": variants, "rename_all": rename_all, "allow_unknown": allow_unknown}
+
+
+def enum_vname(d, v):
+    # C09: explicit rename, else the container case rule, snake_case by default
+    return v["rename"] if v["rename"] is not None else rule_variant(d["rename_all"] or "snake_case", v["ident"])
+
+
+def enum_layout(d):
+    """Assign the enum's type parameters U0.. to variant fields in declaration order."""
+    k = 0
+    lay = []
+    for v in d["variants"]:
+        if v["style"] == "newtype":
+            lay.append([f"U{k}"]); k += 1
+        elif v["style"] == "struct":
+            lay.append([f"U{k + i}" for i in range(len(v["fields"]))]); k += len(v["fields"])
+        else:
+            lay.append([])
+    return lay, k
+
+
+def enum_declaration(d):
+    lay, k = enum_layout(d)
+    tps = ", ".join(f"U{i}" for i in range(k))
+    ca = []
+    if d["rename_all"]:
+        ca.append(f'rename_all = {lit(d["rename_all"])}')
+    if d["allow_unknown"]:
+        ca.append("allow_unknown_fields")
+    out = (f"#[darling({', '.join(ca)})] " if ca else "") + f"enum {d['name']}" + (f"<{tps}>" if k else "") + " { "
+    for v, tp in zip(d["variants"], lay):
+        a = []
+        if v["rename"] is not None:
+            a.append(f'rename = {lit(v["rename"])}')
+        if v["skip"]:
+            a.append("skip")
+        if v["word"]:
+            a.append("word")
+        if a:
+            out += f"#[darling({', '.join(a)})] "
+        if v["style"] == "unit":
+            out += f"{v['ident']}, "
+        elif v["style"] == "newtype":
+            out += f"{v['ident']}({tp[0]}), "
+        else:
+            out += f"{v['ident']} {{ "
+            for i, f in enumerate(v["fields"]):
+                fa = []
+                if f["rename"] is not None:
+                    fa.append(f'rename = {lit(f["rename"])}')
+                if f["default"] == "trait":
+                    fa.append("default")
+                if f["skip"]:
+                    fa.append("skip")
+                if f["multiple"]:
+                    fa.append("multiple")
+                if fa:
+                    out += f"#[darling({', '.join(fa)})] "
+                out += f"{f['ident']}: " + (f"Vec<{tp[i]}>" if f["multiple"] else tp[i]) + ", "
+            out += "}, "
+    return out + "}"
+
+
+def enum_template(d, gen_id, mode="full"):
+    n = d["name"]
+    lay, K = enum_layout(d)
+    tps = ", ".join(f"U{i}" for i in range(K))
+    gen_bounds = ", ".join(f"U{i}: FromMeta + darling::export::Default" for i in range(K))
+    o = []
+    w = o.append
+    w(f"// ===== enum receiver {n}: {json.dumps(d)}")
+    body = []
+    for v, tp in zip(d["variants"], lay):
+        if v["style"] == "unit":
+            body.append(v["ident"])
+        elif v["style"] == "newtype":
+            body.append(f"{v['ident']}({tp[0]})")
+        else:
+            body.append(f"{v['ident']} {{ " + ", ".join(f"{f['ident']}: " + (f"Vec<{tp[i]}>" if f["multiple"] else tp[i]) for i, f in enumerate(v["fields"])) + " }")
+    w(f"pub enum {n}<{tps}> {{ " + ", ".join(body) + " }")
+    live = [(v, tp) for v, tp in zip(d["variants"], lay) if not v["skip"]]
+    vnames = [enum_vname(d, v) for v, _ in live]
+    vnames_seq = "seq![" + ", ".join(f"{lit(x)}@" for x in vnames) + "]"
+
+    # struct variants: a struct oracle each (carrier struct = ghost record of the variant's fields)
+    directives = ["    //@ match_str 0"] if live else []
+    L, M, CB, occ_for, occ_alts = 0, (1 if live else 0), 0, 0, 0
+    arms_list, arms_str = [], []
+    for v, tp in live:
+        nm = lit(enum_vname(d, v))
+        vi = v["ident"]
+        if v["style"] == "unit":
+            arms_list.append(f"if meta_name(m) == {nm}@ {{ if m is Path {{ Ok({n}::{vi}) }} else {{ Err(e_with_span(e_format(\"non-path\"@), meta_span(m))) }} }}")
+            arms_str.append(f"if s == {nm}@ {{ Ok({n}::{vi}) }}")
+        elif v["style"] == "newtype":
+            t = tp[0]
+            arms_list.append(f"if meta_name(m) == {nm}@ {{ match {t}::meta_spec(m) {{ Ok(v) => Ok({n}::{vi}(v)), Err(e) => Err(e_at(e, {nm}@)) }} }}")
+            arms_str.append(f"if s == {nm}@ {{ match {t}::none_spec() {{ Some(v) => Ok({n}::{vi}(v)), None => Err(e_format(\"literal\"@)) }} }}")
+            directives.append(f"    //@ closure {CB}: |e: Error| -> (r: Error) ensures r == e_at(e, {nm}@)")
+            CB += 1
+        else:
+            cn = f"{n}{vi}"
+            dv = struct_desc(cn, v["fields"], rename_all=d["rename_all"] or "snake_case", allow_unknown=d["allow_unknown"])
+            ctx = {"loop": L, "match": M, "closure": CB, "occ_for": occ_for, "occ_alts": occ_alts, "targs": tp, "located": enum_vname(d, v)}
+            text, D, info = struct_template(dv, gen_id, mode="full", ctx=ctx)
+            w(text)
+            directives += D
+            L += 1
+            M += 1 if info["addressable"] else 0
+            CB += info["nclos"]
+            occ_for += 1
+            occ_alts += 1 if info["has_alts"] else 0
+            targs = ", ".join(tp)
+            ta = f"::<{targs}>" if tp else ""
+            build = f"{n}::{vi} {{ " + ", ".join(f"{f['ident']}: v.{f['ident']}" for f in v["fields"]) + " }"
+            arms_list.append(
+                f"if meta_name(m) == {nm}@ {{ if m is List {{ match parse_items(m->List_0.tokens) {{ Err(se) => Err(e_from_syn(se)), "
+                f"Ok(items) => {{ let s = chk_{cn}{ta}(run_{cn}{ta}(items)); if s.errs.len() > 0 {{ Err(e_at(e_multiple(s.errs), {nm}@)) }} "
+                f"else {{ let v = val_{cn}{ta}(s); Ok({build}) }} }} }} }} else {{ Err(e_with_span(e_format(\"non-list\"@), meta_span(m))) }} }}")
+            arms_str.append(f"if s == {nm}@ {{ Err(e_format(\"literal\"@)) }}")
+    unk = f"Err(e_with_span(e_unknown_alts(meta_name(m), {vnames_seq}), meta_span(m)))" if vnames else "Err(e_with_span(e_unknown(meta_name(m)), meta_span(m)))"
+    w(f"pub open spec fn list_{n}<{gen_bounds}>(outer: Seq<NestedMeta>) -> Result<{n}<{tps}>> {{")
+    w("    if outer.len() == 0 { Err(e_too_few(1)) } else if outer.len() > 1 { Err(e_too_many(1)) } else { match outer[0] {")
+    w('        NestedMeta::Lit(l) => Err(e_with_span(e_format("literal"@), lit_span(l))),')
+    w("        NestedMeta::Meta(m) => {")
+    w("            " + "\n            else ".join(arms_list + [f"{{ {unk} }}"]) if arms_list else f"            {unk}")
+    w("        }")
+    w("    } }")
+    w("}")
+    w(f"pub open spec fn string_{n}<{gen_bounds}>(s: Seq<char>) -> Result<{n}<{tps}>> {{")
+    w("    " + "\n    else ".join(arms_str + ["{ Err(e_value(s)) }"]) if arms_str else "    Err(e_value(s))")
+    w("}")
+    if vnames:
+        directives.append(f"    //@ replace R16 @{occ_alts}: unknown_field_with_alts(__other, &[$$]) ==> unknown_field_with_alts(__other, {{ let __alts: &[&str] = &[$1]; proof {{ assert(strs(__alts@) =~= {vnames_seq}); }} __alts }})")
+    wordv = next((v for v in d["variants"] if v["word"]), None)
+    w(f"impl<{gen_bounds}> {n}<{tps}> {{")
+    w(f"    //@fn @gen:{gen_id}.rs :: impl crate::darling::FromMeta for {n}<{tps}> :: fn from_list")
+    w("    #[verifier::loop_isolation(false)]")
+    w(f"    pub fn from_list(__outer: &[crate::darling::export::NestedMeta]) -> (r: crate::darling::Result<Self>)")
+    w(f"        ensures r == list_{n}::<{tps}>(__outer@),")
+    w("    //@body")
+    for x in directives:
+        w(x)
+    w("    //@end")
+    w(f"    //@fn @gen:{gen_id}.rs :: impl crate::darling::FromMeta for {n}<{tps}> :: fn from_string")
+    w(f"    pub fn from_string(lit: &str) -> (r: crate::darling::Result<Self>)")
+    w(f"        ensures r == string_{n}::<{tps}>(lit@),")
+    w("    //@body")
+    if live:
+        w("    //@ match_str 0")
+    w("    //@end")
+    if wordv:
+        w(f"    //@fn @gen:{gen_id}.rs :: impl crate::darling::FromMeta for {n}<{tps}> :: fn from_word")
+        w(f"    pub fn from_word() -> (r: crate::darling::Result<Self>)")
+        w(f"        ensures r == Ok::<Self, Error>({n}::{wordv['ident']}),")
+        w("    //@body")
+        w(f"    //@ closure 0: || -> (r: crate::darling::Result<Self>) ensures r == Ok::<Self, Error>({n}::{wordv['ident']})")
+        w("    //@end")
+    w("}")
+    text = "\n".join(o)
+    if K == 0:
+        text = text.replace("::<>", "").replace("<>", "")
+    return text
+
+
+def quick_enums():
+    f = field
+    v = variant
+    return [
+        enum_desc("E0", [v("Alpha"), v("BetaTwo", rename="bee"), v("Gamma", word=True), v("Hidden", skip=True), v("New", "newtype"),
+                         v("Cfg", "struct", fields=[f("x"), f("y", default="trait")])]),
+        enum_desc("E1", [v("OnlyUnit")], rename_all="SCREAMING_SNAKE_CASE"),
+        enum_desc("E2", [v("FirstThing", "newtype"), v("SecondThing", "newtype", rename="second_thing_x")], rename_all="camelCase"),
+        enum_desc("E3", [v("Conf", "struct", fields=[f("items", multiple=True), f("z", skip=True)]), v("Other", "struct", fields=[f("q")])], allow_unknown=True),
+        enum_desc("E4", [v("A", skip=True), v("B", skip=True)]),
+        enum_desc("E5", [v("LoremIpsum"), v("DolorSit", word=True), v("Amet", "newtype", skip=True)], rename_all="kebab-case"),
+    ]
+
+
+CORPORA["enums"] = lambda tier, seed: quick_enums()
